@@ -149,9 +149,37 @@ theorem define_class_case (cs : Classes) (k1 k2 : Name) (hk : fold k1 = fold k2)
   cases hg : clsGet cs (fold k1) with
   | some c => simp [hg] at h
   | none =>
-    simp only [hg, Option.some.injEq] at h
-    subst h
-    rw [← hk, clsGet_append_self cs _ _ hg]
+    cases hd : dupFold (as1.map (·.1)) with
+    | true => simp [hg, hd] at h
+    | false =>
+      simp only [hg, hd, Bool.false_eq_true, ↓reduceIte, Option.some.injEq] at h
+      subst h
+      rw [← hk, clsGet_append_self cs _ _ hg]
+
+/-- a class whose attribute names coincide apart from letter case is rejected and nothing is defined; a class that
+    `define_class` accepts therefore satisfies the hypothesis `WF` of the theorems above (its declared names are
+    distinct after case folding; it has no referential attributes yet) -/
+theorem define_class_checks_names (cs cs' : Classes) (k : Name) (attrs : List (Name × Name)) :
+    (dupFold (attrs.map (·.1)) = true → defineClass cs k attrs = none) ∧
+    (defineClass cs k attrs = some cs' →
+      WF { kind := k, attrs := attrs, refs := [] } ∧ findMetaclass cs' k = some { kind := k, attrs := attrs, refs := [] }) := by
+  constructor
+  · intro hd
+    unfold defineClass
+    cases clsGet cs (fold k) <;> simp [hd]
+  · intro h
+    unfold defineClass at h
+    cases hg : clsGet cs (fold k) with
+    | some c => simp [hg] at h
+    | none =>
+      cases hd : dupFold (attrs.map (·.1)) with
+      | true => simp [hg, hd] at h
+      | false =>
+        simp only [hg, hd, Bool.false_eq_true, ↓reduceIte, Option.some.injEq] at h
+        subst h
+        refine ⟨⟨nodup_of_not_dupFold _ hd, fun r hr => by simp at hr⟩, ?_⟩
+        unfold findMetaclass
+        exact clsGet_append_self cs _ _ hg
 
 /-- creation and selection address the class through `find_metaclass`: every spelling behaves the same -/
 theorem new_select_case (w : World) (k1 k2 : Name) (hk : fold k1 = fold k2) (args : List Val)
@@ -214,7 +242,7 @@ theorem attribute_access_as_in_source (c : Cls) (d : Dict) (sp : Name) (v : Val)
 
 theorem class_table_as_in_source (cs : Classes) (kind : Name) (attrs : List (Name × Name)) :
     findMetaclass cs kind = iFind findTestKey findReadKey cs kind ∧
-    defineClass cs kind attrs = iDefine defineTestKey defineStoredKind defineStoreKey cs kind attrs :=
+    defineClass cs kind attrs = iDefine defineTestKey defineStoredKind defineStoreKey defineAttrCollision cs kind attrs :=
   ⟨findMetaclass_eq cs kind, defineClass_eq cs kind attrs⟩
 
 /-! non-vacuity: the interpreter runs the generated shapes; other shapes are other functions (a write that stored
@@ -225,7 +253,9 @@ example : iGetattr getShape cB dB ['N', 'M'] = .val (.str []) ∧ iGetattr getSh
     iDelattr delMatch dB ['I', 'D'] = ([(['N', 'm'], .str [])], .ok) := by decide
 example : iSetattr { setShape with inDict := .dictStore .given } cB dB ['n', 'M'] (.int 5) =
     ([(['I', 'd'], .int 7), (['N', 'm'], .str []), (['n', 'M'], .int 5)], .ok) := by decide
-example : iDefine .asGiven defineStoredKind defineStoreKey [(['A', 'B'], cB)] ['a', 'b'] [] ≠ none ∧
-    iDefine defineTestKey defineStoredKind defineStoreKey [(['A', 'B'], cB)] ['a', 'b'] [] = none := by decide
+example : iDefine .asGiven defineStoredKind defineStoreKey defineAttrCollision [(['A', 'B'], cB)] ['a', 'b'] [] ≠ none ∧
+    iDefine defineTestKey defineStoredKind defineStoreKey defineAttrCollision [(['A', 'B'], cB)] ['a', 'b'] [] = none ∧
+    iDefine defineTestKey defineStoredKind defineStoreKey defineAttrCollision [] ['C'] [(['N', 'm'], ['s']), (['n', 'M'], ['s'])] = none ∧
+    iDefine defineTestKey defineStoredKind defineStoreKey none [] ['C'] [(['N', 'm'], ['s']), (['n', 'M'], ['s'])] ≠ none := by decide
 
 end PyxProps.C10
